@@ -167,7 +167,7 @@ class Ctx:
         label = label or cfg
         logp = os.path.join(self.work, label + ".tlc.log")
         meta = os.path.join(self.work, label + ".states")
-        cmd = ["java", "-XX:+UseParallelGC", "-Xmx" + heap, "-Xss64m", "-cp", TLA_CP, "tlc2.TLC",
+        cmd = ["java", "-XX:+UseParallelGC", "-Xmx" + heap, "-Xss512m", "-cp", TLA_CP, "tlc2.TLC",
                "-metadir", meta, "-cleanup", "-noGenerateSpecTE", "-config", cfg + ".cfg"]
         if coverage and not simulate:
             cmd += ["-coverage", "1"]
@@ -182,6 +182,43 @@ class Ctx:
         e.update(env or {})
         t0 = time.time()
         summary = None
+        procs = (simulate or {}).get("procs", 1)
+        if simulate and procs > 1:
+            # TLC's simulator is single-threaded per seed (which keeps it reproducible): run several seeds side by side,
+            # collect their output, then replay everything in one go
+            per = max(1, simulate["num"] // procs)
+            outs, ps = [], []
+            for k in range(procs):
+                c2 = list(cmd)
+                c2[c2.index("-seed") + 1] = str(self.seed + simulate.get("seed_offset", 0) + 1000 * k)
+                i = c2.index("-simulate")
+                c2[i + 1] = "num=%d" % per
+                c2[c2.index("-metadir") + 1] = meta + ".%d" % k
+                op = os.path.join(self.work, "%s.sim%d.out" % (label, k))
+                outs.append(op)
+                ps.append(subprocess.Popen(c2, cwd=SPEC, env=e, stdout=open(op, "w"), stderr=subprocess.STDOUT))
+            rcs = []
+            for pr in ps:
+                try:
+                    rcs.append(pr.wait(timeout=timeout))
+                except subprocess.TimeoutExpired:
+                    for q in ps:
+                        q.kill()
+                    raise ToolError("timeout running %s" % label)
+            merged = os.path.join(self.work, label + ".sim.out")
+            with open(merged, "w") as mo:
+                for op in outs:
+                    with open(op) as f:
+                        shutil.copyfileobj(f, mo)
+                    os.remove(op)
+            for k in range(procs):
+                shutil.rmtree(meta + ".%d" % k, ignore_errors=True)
+            cmd = ["cat", merged]
+            class _P:  # the merged output stands in for one TLC process
+                returncode = max(rcs)
+            sim_rc = max(rcs)
+        else:
+            sim_rc = None
         if replay:
             sump = os.path.join(self.work, label + ".replay.json")
             vh = [VH, "replay", replay, "--jobs", str(self.jobs), "--summary", sump, "--tlclog", logp,
@@ -212,15 +249,15 @@ class Ctx:
                     raise ToolError("timeout running %s" % label)
         shutil.rmtree(meta, ignore_errors=True)
         res = parse_tlc_log(logp)
-        res["rc"] = p1.returncode
+        res["rc"] = p1.returncode if sim_rc is None else sim_rc
         res["label"] = label
         res["wall_s"] = round(time.time() - t0, 2)
-        res["cmd"] = " ".join(cmd[cmd.index("tlc2.TLC"):])
-        ok = p1.returncode == 0 and not res["errors"] and res["completed"]
+        res["cmd"] = " ".join(cmd[cmd.index("tlc2.TLC"):]) if "tlc2.TLC" in cmd else "tlc2.TLC -simulate (x%d seeds) %s" % (procs, cfg)
+        ok = res["rc"] == 0 and not res["errors"] and res["completed"]
         res["ok"] = ok
         if must_pass and not ok:
             tail = subprocess.run(["tail", "-n", "40", logp], stdout=subprocess.PIPE, text=True).stdout
-            raise ToolError("TLC reported a problem in %s (rc %s): %s\n%s" % (label, p1.returncode, res["errors"][:3], tail))
+            raise ToolError("TLC reported a problem in %s (rc %s): %s\n%s" % (label, res["rc"], res["errors"][:3], tail))
         for a in required_actions:
             if res["actions"].get(a, [0, 0])[0] == 0:
                 raise ToolError("vacuity: action %s of %s was never taken" % (a, label))
